@@ -13,6 +13,8 @@ pub enum Opnd {
     Imm(i32),
     Mem { seg: &'static str, base: &'static str, index: &'static str, disp: i32, has_disp: bool },
     Label { name: String, off: u32 },
+    /// the constant `OFFSET name`
+    Offset { name: String, off: u32 },
 }
 
 #[derive(Clone, Copy, Debug, PartialEq)]
@@ -93,6 +95,7 @@ impl Opnd {
                 json!({"k":"mem","seg":seg,"base":base,"index":index,"disp":disp})
             }
             Opnd::Label { name, off } => json!({"k":"label","name":name,"off":off}),
+            Opnd::Offset { name, off } => json!({"k":"offset","name":name,"v":off}),
         }
     }
     /// source text; `w` = operand width, written as the byte/word keyword for memory operands
@@ -122,6 +125,7 @@ impl Opnd {
             Opnd::Label { name, .. } => {
                 format!("{}{}{}", sp.kw(if w == 8 { "byte" } else { "word" }), sp.sp(), name)
             }
+            Opnd::Offset { name, .. } => format!("{}{}{}", sp.kw("offset"), sp.sp(), name),
         }
     }
 }
